@@ -110,3 +110,152 @@ contract(
             "all(implies(and_sat(x), all(sat(item(group['elements'], j)) for j in range(k + 1))) for x in new_results)"]),
     },
 )
+
+
+# =============================================================================================
+# native side (bounded stand-in + replay)
+# =============================================================================================
+def _formulas(leaves, max_leaves, max_depth):
+    """all and/or trees with up to max_leaves leaves (each leaf used at most once), alternating operators, depth <= max_depth"""
+    import itertools
+    out = []
+
+    def build(avail, depth, op):
+        # a node with operator `op` over 2..n children; children are leaves or sub-nodes of the other operator
+        res = []
+        items = list(avail)
+        for n in range(2, len(items) + 1):
+            for combo in itertools.combinations(items, n):
+                # partition `combo`: each element is a leaf child, or (at most one group of >=2) goes into a sub-node
+                res.append((op, [("leaf", x) for x in combo]))
+                if depth > 1 and n >= 3:
+                    for m in range(2, n):
+                        for subset in itertools.combinations(combo, m):
+                            rest = [x for x in combo if x not in subset]
+                            sub = ("or" if op == "and" else "and", [("leaf", x) for x in subset])
+                            res.append((op, [("leaf", x) for x in rest] + [sub]))
+        return res
+
+    for op in ("and", "or"):
+        out += build(leaves[:max_leaves], max_depth, op)
+    return out
+
+
+def _fmt(f):
+    if f[0] == "leaf":
+        return f[1]
+    return "(" + (" %s " % f[0]).join(_fmt(c) for c in f[1]) + ")"
+
+
+def _ev(f, seen):
+    if f[0] == "leaf":
+        return f[1] in seen
+    vals = [_ev(c, seen) for c in f[1]]
+    return all(vals) if f[0] == "and" else any(vals)
+
+
+def native_checks(rng, tier):
+    import itertools
+    from native import v2
+    from nemoguardrails.colang.v2_x.lang.colang_ast import Spec
+    from nemoguardrails.colang.v2_x.lang.expansion import normalize_element_groups
+    failing = []
+    # ---- (1) normalize_element_groups against the formula, every valuation (O1 both directions + O2)
+    names = ["a", "b", "c", "d", "e"]
+    n1 = 0
+    seen1 = set()
+
+    def to_group(f, table):
+        if f[0] == "leaf":
+            return table[f[1]]
+        return {"_type": "spec_" + f[0], "elements": [to_group(c, table) for c in f[1]]}
+
+    forms = _formulas(names, 5 if tier == "thorough" else 4, 2)
+    for f in forms:
+        table = {n: Spec(name=n.upper(), arguments={}) for n in names}
+        g = to_group(f, table)
+        try:
+            nf = normalize_element_groups(g)
+        except Exception as ex:
+            nf = None
+            bad = "raised %s" % type(ex).__name__
+        n1 += 1
+        seen1.add(_fmt(f))
+        if nf is not None:
+            bad = None
+            if nf.get("_type") != "spec_or" or not all(isinstance(a, dict) and a.get("_type") == "spec_and" and
+                                                      all(isinstance(l, Spec) for l in a["elements"]) for a in nf["elements"]):
+                bad = "result is not an or of ands of leaves: %r" % (nf,)
+            else:
+                used = sorted({x for x in names if any(table[x] is l for a in nf["elements"] for l in a["elements"])})
+                for r in range(len(names) + 1):
+                    for true_set in itertools.combinations(names, r):
+                        want = _ev(f, set(true_set))
+                        got = any(all(any(table[x] is l for x in true_set) for l in a["elements"]) for a in nf["elements"])
+                        if want != got:
+                            bad = "valuation %s: formula %s, normal form %s" % (sorted(true_set), want, got)
+                            break
+                    if bad:
+                        break
+        if bad and len(failing) < 6:
+            failing.append(dict(kind="post", function="normalize_element_groups", file=EXP, property_id="C07",
+                                clause="dnf(result) and (dnf_sat(result) == sat(group)) for every valuation",
+                                inputs=_fmt(f), outcome=bad))
+    yield dict(function="normalize_element_groups", evaluations=n1, distinct=len(seen1), failures=len([x for x in failing if x["function"] == "normalize_element_groups"]),
+               failing=[x for x in failing if x["function"] == "normalize_element_groups"],
+               bound="all and/or formulas of nesting depth <= 2 over <= %d distinct leaves, all 2^5 valuations each" % (5 if tier == "thorough" else 4))
+
+    # ---- (2) the interpreter: `match <group>` completes at exactly the first moment the received events satisfy it
+    leaves = {"A": "A()", "B": "B()", "C": "C()", "D": "D()", "E1": "E(x=1)", "E2": "E(x=2)"}
+    events = {"A": {"type": "A"}, "B": {"type": "B"}, "C": {"type": "C"}, "D": {"type": "D"}, "E1": {"type": "E", "x": 1},
+              "E2": {"type": "E", "x": 2}, "X": {"type": "X"}}
+
+    def colang(f):
+        if f[0] == "leaf":
+            return leaves[f[1]]
+        return "(" + (" %s " % f[0]).join(colang(c) for c in f[1]) + ")"
+
+    fails2 = []
+    n2 = 0
+    seen2 = set()
+    pools = [["A", "B", "C", "D"], ["E1", "E2", "A", "B"]]
+    for pool in pools:
+        forms2 = _formulas(pool, 4, 2)
+        if tier != "thorough":
+            forms2 = [f for i, f in enumerate(forms2) if i % 3 == 0]
+        for f in forms2:
+            used = sorted({x for x in pool if x in _fmt(f)})
+            src = "flow main\n  match %s\n  start UtteranceBotAction(script=\"done\")\n  match Never()\n" % colang(f)[1:-1]
+            alphabet = used + ["X"]
+            L = 4 if tier == "thorough" else 3
+            seqs = list(itertools.product(alphabet, repeat=L))
+            if tier != "thorough" and len(seqs) > 40:
+                seqs = rng.sample(seqs, 40)
+            for seq in seqs:
+                n2 += 1
+                seen2.add((_fmt(f), seq))
+                try:
+                    st, out = v2.start_main(src)
+                    got = None
+                    for i, e in enumerate(seq):
+                        st, out = v2.step(st, dict(events[e]))
+                        if any(o.get("type") == "StartUtteranceBotAction" for o in out):
+                            got = i
+                            break
+                except Exception as ex:
+                    got = "raised %s" % type(ex).__name__
+                want = None
+                recv = set()
+                for i, e in enumerate(seq):
+                    recv.add(e)
+                    if _ev(f, recv):
+                        want = i
+                        break
+                if got != want and len(fails2) < 5:
+                    fails2.append(dict(kind="post", function="match <group> (run_to_completion)", file="nemoguardrails/colang/v2_x/runtime/statemachine.py",
+                                       property_id="C07", clause="completes at exactly the first event after which the formula holds",
+                                       inputs="match %s ; events %s" % (colang(f)[1:-1], list(seq)),
+                                       outcome="completed at index %r, expected %r" % (got, want)))
+    yield dict(function="match <group> via run_to_completion", evaluations=n2, distinct=len(seen2), failures=len(fails2), failing=fails2,
+               bound="and/or formulas (depth <= 2, <= 4 leaves) over {A,B,C,D} and {E(x=1),E(x=2),A,B}; event sequences of length %d over the "
+                     "formula's events plus an irrelevant X (sampled: 40 per formula in quick tier, exhaustive in thorough)" % (4 if tier == "thorough" else 3))
